@@ -40,7 +40,7 @@ fn gbk_oracle(cx: &mut Ctx, prog: &Prog, modes: &[Mode]) {
 pub fn run(cx: &mut Ctx) {
     let o = CheckOpts { par_vs_seq: true, vs_reference: true };
     // exhaustive: all keyed inputs of <= 5 (quick 4) rows over 3 keys x partitions 1..6
-    let maxlen = cx.budget(4, 5);
+    let maxlen = size_for(cx, 4, 5);
     let mut inputs: Vec<Vec<V>> = vec![vec![]];
     let mut frontier: Vec<Vec<V>> = vec![vec![]];
     for _ in 0..maxlen {
